@@ -15,6 +15,7 @@ RULE = (
     "diagonal chains, multi-label adjacency, Bernoulli noise up to 12x12 / 6x6x6 / length 60, signed and unsigned dtypes, "
     "checkerboards with more than 255 components (one with more than 65535 in thorough). Each side of a pair is judged "
     "separately. Non-trivial = at least two foreground voxels; distinct = hash of (array, dtype, backend)."
+    ' Further families: approximator objects shared by all calls of a shard (1-D/2-D/3-D in turn), Fortran / transposed layouts, more than 2^20 elements and one 256^3 volume, exactly 255..257 components, extreme label values beside classes that a narrow cast would erase or join.'
 )
 ASSUMPTIONS = [
     "documented connectivity: cc3d = 8/26-connectivity and label aware, scipy = 4/6-connectivity on the non-zero mask, default = cc3d for 3-D and scipy below",
